@@ -62,7 +62,9 @@ PLANS = {
             "assumed contract Enum.max (builtin max/map); termination of the recursion over nested structs (declared-earlier order, C08)",
             "uniqueness of the hierarchical names is NOT proved (known finding KF-F9: an unrolled array x next to a field x_0)",
         ],
-        "explanation": "representation invariant tiled(encoding, cursor, names): first piece at bit 0, each piece starts where the previous ends, "
+        "explanation": "representation invariants tiled(encoding, cursor, names) and leafy(fcp, encoding, unroll) (every piece of the result is a "
+                       "scalar leaf whose bit length is the wire width of its type - stated for ALL pieces of generate()'s result, not only for the "
+                       "piece just appended): first piece at bit 0, each piece starts where the previous ends, "
                        "cursor at the end; every member of PackedEncoder preserves it; a leaf gets exactly type_width bits (= wire width), the "
                        "options of the signal block named like the field and of no other; names follow struct_names(...) over "
                        "sorted-by-field-id fields; generate() resets the state so its result is a function of (schema, binding, context)",
